@@ -189,6 +189,22 @@ func checkFieldsLoose(r *ev.Run, ver, level int, s string, obj any) {
 			count[p[0]]++
 		}
 	}
+	// a metric that no token names holds no defined value
+	for _, m := range spec.UpTo(ver, level) {
+		if count[m.Name] != 0 {
+			continue
+		}
+		got, ok := lib.Field(obj, m.Name)
+		en := lib.EnumOf(ver, m.Name)
+		if !ok || got == en.Unknown {
+			continue
+		}
+		for i, c := range en.Codes {
+			if en.Consts[i] == got && !c.ND {
+				r.Violate(ev.Violation{Kind: "accepted-vector-field-not-as-written", Case: strCase(ver, level, s), Observed: fmt.Sprintf("%s holds %d (prints %q) although no token of the vector names %s", m.Name, got, en.Str(got), m.Name), Expected: "Not Defined / unknown for a metric that is not written", GoTest: strTest(ver, level, s)})
+			}
+		}
+	}
 	for _, tk := range toks {
 		p := strings.Split(tk, ":")
 		if len(p) != 2 || count[p[0]] != 1 {
